@@ -341,6 +341,8 @@ def gen_C19(rng, tier):
         out.append(('psetalias %d %d' % P, 'Point.Set/argument-is-receiver'))
         out.append(('psetshared %d %d' % P, 'Point.Set/argument-shares-coordinates'))
         out.append(('decompressrecv ' + hexb(compress(P)), 'Point.Decompress/valid'))
+        out.append(('decompresszero ' + hexb(compress(P)), 'Point.Decompress/zero-value-receiver'))
+        out.append(('mulzerorecv %d %d %d' % ((rng.choice([0, 1, 2, rng.randrange(L)]),) + P), 'Point.Mul/zero-value-receiver'))
         S = rng.randrange(2**256)
         out.append(('sigdecomp ' + hexb(compress(P) + S.to_bytes(32, 'little')), 'Signature.Decompress/valid'))
     ys, res, non = y_classes(rng, tier)
@@ -348,6 +350,7 @@ def gen_C19(rng, tier):
         for sign in (0, 1):
             b = ((y | (sign << 255)) % 2**256).to_bytes(32, 'little')
             out.append(('decompressrecv ' + hexb(b), 'Point.Decompress/any-bytes'))
+            out.append(('decompresszero ' + hexb(b), 'Point.Decompress/any-bytes/zero-value-receiver'))
             out.append(('sigdecomp ' + hexb(b + bytes(32)), 'Signature.Decompress/any-bytes'))
     return out
 
